@@ -1,6 +1,7 @@
 import Fabio.Driver.Proto
 import Fabio.Model.C08
 import Fabio.Model.C08Serve
+import Fabio.Model.C08Main
 /-!
 Driver handlers for C08.  `agree` compares the model with the real code; `spec` evaluates the sentences of
 the property on the implementation's own output with reference functions that do not use the model's
@@ -407,6 +408,120 @@ def serveH : Handler := fun inp impl => do
   return ({ model := model, agree := agree, spec := failing.isEmpty,
             nontrivial := forwarded && (forgedCount wire cfg > 0 || hostOpt != ""), tag := tag } : Verdict).toJson
 
+/-! ### c08.main: the real fabio executable, configured like an operator configures it -/
+
+def parseOpts (j : Json) : Opts :=
+  (getArrD j "opts").toList.filterMap fun e =>
+    let src : Option Source := match getStrD e "src" with
+      | "arg" => some .arg
+      | "env" => some .envFabio
+      | "envbare" => some .envBare
+      | "file" => some .file
+      | _ => none
+    src.map fun s => { src := s, name := s2l (getStrD e "k"), value := s2l (getStrD e "v") }
+
+/-- The specification's own reading of "the configured value of option `name`": command line before
+`FABIO_` environment before bare environment before file, the last one written in that source (independent of
+`Model.C08.optFind`: works on the JSON list). -/
+def specOpt (j : Json) (name : String) : Option String :=
+  let all := (getArrD j "opts").toList
+  let fromSrc (src : String) : Option String :=
+    ((all.filter fun e => getStrD e "src" == src && getStrD e "k" == name).map fun e => getStrD e "v").getLast?
+  match fromSrc "arg" with
+  | some v => some v
+  | none => match fromSrc "env" with
+    | some v => some v
+    | none => match fromSrc "envbare" with
+      | some v => some v
+      | none => fromSrc "file"
+
+def isUUIDShaped (s : String) : Bool :=
+  let l := s2l s
+  l.length == 36 && l.all fun c => c == '-' || c.isDigit || ('a' ≤ c && c ≤ 'f')
+
+def mainH : Handler := fun inp impl => do
+  let wire := parseWire inp
+  let opts := parseOpts inp
+  let host := getStrD inp "host"
+  let hostOpt := getStrD inp "hostopt"
+  let strip := getStrD inp "strip"
+  let listener : Listener := if getStrD inp "listener" == "https" then .https else .http
+  let conn := (impl.getObjVal? "conn").toOption.getD Json.null
+  let remote := getStrD conn "remote"
+  let st : TLS := { version := getNatD conn "tlsv", cipher := getNatD conn "tlsc" }
+  let target := getStrD impl "target"
+  let started := getBoolD impl "started"
+  let isPanic := (impl.getObjVal? "panic").toOption.isSome || (impl.getObjVal? "harness_error").toOption.isSome ||
+    (impl.getObjVal? "hang").toOption.isSome
+  let iHdr := sortHdrs (parseHdrs impl "hdr")
+  let iSts := (getArrD impl "sts").toList.map fun v => match v with | .str s => s | _ => ""
+  let iHost := getStrD impl "uhost"
+  let reached := getBoolD impl "reached"
+  -- the specification's configuration: read off the options by `specOpt`
+  let sName (n : String) : String := (specOpt inp n).getD ""
+  let ageStr := specOpt inp "proxy.header.sts.maxage"
+  let ageKnown : Option Int := match ageStr with
+    | none => some 0
+    | some a => if a != "" && (s2l a).all Char.isDigit && !(startsWith a "0" && a.length > 1) then some (Int.ofNat a.toNat!) else none
+  let sCfg : Cfg := { clientIPHeader := s2l (sName "proxy.header.clientip"), tlsHeader := s2l (sName "proxy.header.tls"),
+                      tlsHeaderValue := s2l (sName "proxy.header.tls.value"), requestID := s2l (sName "proxy.header.requestid"),
+                      stsMaxAge := ageKnown.getD 1 }
+  -- the request id fabio generated: whatever single UUID-shaped value the upstream got that the client did not send
+  let rid := sName "proxy.header.requestid"
+  let uuid := match (if rid == "" then [] else recv iHdr rid) with
+    | [v] => if isUUIDShaped v && !(sent wire rid).contains v then v else "<generated-uuid>"
+    | _ => "<generated-uuid>"
+  let h0 := ofWire (wireL wire)
+  let r : Req := { headers := h0, host := s2l host, remoteAddr := s2l remote, tls := none, proto := s2l (getStrD conn "proto") }
+  let out := mainServe (s2l (getStrD impl "deflip")) opts listener st (s2l uuid)
+    (some { hostOpt := s2l hostOpt, strip := s2l strip, targetHost := s2l target }) r
+  let mcfg := (loadCfg (s2l (getStrD impl "deflip")) opts).getD {}
+  let keys : List String := (["X-Forwarded-For", "X-Real-Ip", "X-Forwarded-Proto", "X-Forwarded-Port", "X-Forwarded-Host",
+      "X-Forwarded-Prefix", "Forwarded"] ++
+      [mcfg.clientIPHeader, mcfg.tlsHeader, mcfg.requestID, sCfg.clientIPHeader, sCfg.tlsHeader, sCfg.requestID].filterMap fun k =>
+        if k.isEmpty then none else some (l2s (canonicalKey k))).eraseDups
+  let proj (h : SHdrs) : SHdrs := sortHdrs (h.filter fun e => keys.contains e.1)
+  let (mStarted, mHdr, mHost, mSts, mOk) := match out with
+    | none => (false, ([] : SHdrs), "", ([] : List String), false)
+    | some (.forward k uh sent resp) =>
+      (true, proj (toS sent), (if uh.isEmpty then target else l2s uh),
+        (clientSTS (.forward k uh sent resp)).map l2s, true)
+    | some _ => (true, [], "", [], false)
+  let model := Json.mkObj [("started", mStarted), ("ok", mOk), ("uhost", mHost), ("hdr", hdrsJson mHdr),
+                           ("sts", Json.arr (mSts.map Json.str).toArray)]
+  let agree := !isPanic && mStarted == started &&
+    (!started || (mOk && reached && proj iHdr == mHdr && iHost == mHost && iSts == mSts))
+  let tlsOn := listener == .https
+  let ws := eqFold (sentFirst wire "Upgrade") "websocket"
+  -- an unparsable command-line value: fabio must refuse to run rather than run with something else
+  let argBad := (getArrD inp "opts").toList.any fun e => getStrD e "src" == "arg" &&
+    ((getStrD e "k" == "proxy.header.sts.maxage" && (parseInt64 (s2l (getStrD e "v")) matches .syntax | .range _)) ||
+     ((getStrD e "k" == "proxy.header.sts.subdomains" || getStrD e "k" == "proxy.header.sts.preload") &&
+        (parseBool (s2l (getStrD e "v"))).isNone))
+  let failing :=
+    if isPanic then ["panic"] else
+    if !started then (if argBad then [] else ["refused-to-start"]) else
+    if !reached then ["upstream-not-reached"] else
+    (if degenerateCfg sCfg then [] else
+      specClauses { wire := wire, cfg := sCfg, peer := specPeer remote, tls := tlsOn, host := host, out := iHdr,
+                    viaReverseProxy := true, reqid := some uuid }) ++
+    (if !tlsOn then (if iSts.isEmpty then [] else ["sts"])
+     else match ageKnown with
+       | some _ => if stsSpec sCfg tlsOn (!ws) iSts then [] else ["sts"]
+       | none => [])
+  let srcs := ((getArrD inp "opts").toList.map fun e => getStrD e "src").eraseDups
+  let cls := if !started then "refused" else
+    (if degenerateCfg sCfg then "config-collision" else upgradeClass wire tlsOn ++
+      (if hostOpt == "" then "" else if hostOpt == "dst" then "/hostopt-dst" else "/hostopt-literal")) ++
+    (if opts.isEmpty then "/defaults" else
+      (if srcs.contains "arg" then "/arg" else "") ++ (if srcs.contains "env" || srcs.contains "envbare" then "/env" else "") ++
+      (if srcs.contains "file" then "/file" else ""))
+  let tag := match failing with
+    | [] => cls
+    | f :: _ => f ++ "@" ++ cls
+  return ({ model := model, agree := agree, spec := failing.isEmpty,
+            nontrivial := started && (forgedCount wire sCfg > 0 || hostOpt != "" || tlsOn), tag := tag } : Verdict).toJson
+
 def streams : List (String × Handler) :=
-  [("c08.unit", unitH), ("c08.proxy", proxyH), ("c08.hopbyhop", proxyH), ("c08.serve", serveH)]
+  [("c08.unit", unitH), ("c08.proxy", proxyH), ("c08.hopbyhop", proxyH), ("c08.serve", serveH), ("c08.main", mainH)]
 end Fabio.Driver.C08
